@@ -5,6 +5,7 @@ import (
 	"go/ast"
 	"go/token"
 	"go/types"
+	"strings"
 
 	"golang.org/x/tools/go/packages"
 )
@@ -486,6 +487,72 @@ func c05Run(r *Run) {
 			}
 			return true
 		})
+	}
+
+	// every statement node that owns a finally region (a []data.GetValue field whose name says so) — the
+	// general try statement and any leaner sibling a parser may build for try/finally without catch —
+	// evaluates its protected block under a deferred recover, so that a Go panic inside try becomes a throw
+	// and still reaches finally
+	{
+		stmtList := func(t types.Type) bool {
+			sl, ok := t.Underlying().(*types.Slice)
+			return ok && isNamed(sl.Elem(), modPath+"/data", "GetValue")
+		}
+		scope := npkg.Types.Scope()
+		for _, nm := range scope.Names() {
+			tn, ok := scope.Lookup(nm).(*types.TypeName)
+			if !ok {
+				continue
+			}
+			st, ok := tn.Type().Underlying().(*types.Struct)
+			if !ok {
+				continue
+			}
+			hasFinally := false
+			for i := 0; i < st.NumFields(); i++ {
+				if stmtList(st.Field(i).Type()) && strings.Contains(strings.ToLower(st.Field(i).Name()), "finally") {
+					hasFinally = true
+				}
+			}
+			if !hasFinally {
+				continue
+			}
+			entry := findFunc(npkg, tn.Name(), "GetValue")
+			if entry == nil {
+				continue
+			}
+			// closure: the type's methods and package functions reached from GetValue
+			seen := map[*ast.FuncDecl]bool{entry: true}
+			work := []*ast.FuncDecl{entry}
+			recovers := false
+			for len(work) > 0 {
+				fd := work[0]
+				work = work[1:]
+				ast.Inspect(fd.Body, func(n ast.Node) bool {
+					switch x := n.(type) {
+					case *ast.CallExpr:
+						if id, ok := ast.Unparen(x.Fun).(*ast.Ident); ok && id.Name == "recover" {
+							if _, isBuiltin := info.Uses[id].(*types.Builtin); isBuiltin {
+								recovers = true
+							}
+						}
+						if cal := calleeFunc(info, x); cal != nil && cal.Pkg() == npkg.Types {
+							if hd := declOf(npkg, cal); hd != nil && hd.Body != nil && !seen[hd] && len(seen) < 40 {
+								seen[hd] = true
+								work = append(work, hd)
+							}
+						}
+					}
+					return true
+				})
+			}
+			key := "node.(" + tn.Name() + ")#panic-protected"
+			if recovers {
+				r.ok(key, entry.Pos(), "the statement's evaluation recovers a Go panic (it becomes a throw and reaches finally)")
+			} else {
+				r.bad(key, entry.Pos(), "this statement owns a finally region but nothing in its evaluation recovers a Go panic: a panic inside its try block unwinds past it and the finally block never runs")
+			}
+		}
 	}
 
 	// ---- CATCH ----
